@@ -24,10 +24,13 @@ import (
 	"crypto/x509"
 	"crypto/x509/pkix"
 	"encoding/hex"
+	"encoding/pem"
 	"errors"
 	"fmt"
 	"math/big"
 	"net"
+	"os"
+	"path/filepath"
 	"runtime"
 	"strconv"
 	"strings"
@@ -37,7 +40,6 @@ import (
 
 	"github.com/foxcpp/maddy/framework/dns"
 	"github.com/foxcpp/maddy/framework/exterrors"
-	"github.com/foxcpp/maddy/framework/future"
 	"github.com/foxcpp/maddy/framework/log"
 	"github.com/foxcpp/maddy/framework/module"
 	"github.com/foxcpp/maddy/internal/smtpconn"
@@ -109,6 +111,14 @@ func c13Key(t *testing.T) *ecdsa.PrivateKey {
 var c13Serial int64 = 1000
 
 func c13Sign(t *testing.T, tmpl, parent *x509.Certificate, key, parentKey *ecdsa.PrivateKey) *x509.Certificate {
+	c, err := c13SignE(tmpl, parent, key, parentKey)
+	if err != nil {
+		t.Fatal(err)
+	}
+	return c
+}
+
+func c13SignE(tmpl, parent *x509.Certificate, key, parentKey *ecdsa.PrivateKey) (*x509.Certificate, error) {
 	c13Serial++
 	tmpl.SerialNumber = big.NewInt(c13Serial)
 	if parent == nil {
@@ -117,13 +127,94 @@ func c13Sign(t *testing.T, tmpl, parent *x509.Certificate, key, parentKey *ecdsa
 	}
 	der, err := x509.CreateCertificate(rand.Reader, tmpl, parent, &key.PublicKey, parentKey)
 	if err != nil {
-		t.Fatal(err)
+		return nil, err
 	}
-	c, err := x509.ParseCertificate(der)
+	return x509.ParseCertificate(der)
+}
+
+// ---------------------------------------------------------------- the SYSTEM trust store of the test process
+//
+// A real MTA runs on a host whose system trust store holds the public CAs, and the servers it talks
+// to mostly present chains that are valid under it. Code that hands crypto/x509 a nil root pool
+// (x509.VerifyOptions.Roots, tls.Config.RootCAs) gets the SYSTEM pool — "no trust anchor" silently
+// becomes "every public CA". To make that visible the two root CAs of the harness (c13PKI.root,
+// c13PKI.foreign: the 'public' hierarchies, c13PKI.publicPool) ARE the system trust store of this
+// test process: they are made once, in a package-level initialiser, written to a PEM file that
+// SSL_CERT_FILE names (SSL_CERT_DIR: an empty directory), and the system pool is loaded at once
+// (crypto/x509 loads it once per process, on first use) — before any test and any code under test
+// can have touched it. Every test's PKI hangs under these two roots.
+type c13SysRoots struct {
+	root, foreign       *x509.Certificate
+	rootKey, foreignKey *ecdsa.PrivateKey
+	err                 error
+}
+
+var c13Sys = c13InstallSystemRoots()
+
+func c13InstallSystemRoots() *c13SysRoots {
+	sr := &c13SysRoots{}
+	fail := func(err error) *c13SysRoots { sr.err = err; return sr }
+	var err error
+	if sr.rootKey, err = ecdsa.GenerateKey(elliptic.P256(), rand.Reader); err != nil {
+		return fail(err)
+	}
+	if sr.foreignKey, err = ecdsa.GenerateKey(elliptic.P256(), rand.Reader); err != nil {
+		return fail(err)
+	}
+	now := time.Now()
+	if sr.root, err = c13SignE(c13CA("verif root", now), nil, sr.rootKey, nil); err != nil {
+		return fail(err)
+	}
+	if sr.foreign, err = c13SignE(c13CA("verif foreign root", now), nil, sr.foreignKey, nil); err != nil {
+		return fail(err)
+	}
+	dir, err := os.MkdirTemp("", "verif-c13-sysroots-")
 	if err != nil {
-		t.Fatal(err)
+		return fail(err)
 	}
-	return c
+	defer os.RemoveAll(dir)
+	var pemBytes []byte
+	for _, c := range []*x509.Certificate{sr.root, sr.foreign} {
+		pemBytes = append(pemBytes, pem.EncodeToMemory(&pem.Block{Type: "CERTIFICATE", Bytes: c.Raw})...)
+	}
+	file, empty := filepath.Join(dir, "roots.pem"), filepath.Join(dir, "empty")
+	if err = os.WriteFile(file, pemBytes, 0o600); err != nil {
+		return fail(err)
+	}
+	if err = os.Mkdir(empty, 0o700); err != nil {
+		return fail(err)
+	}
+	os.Setenv("SSL_CERT_FILE", file)
+	os.Setenv("SSL_CERT_DIR", empty)
+	// load it now: from here on the process's system pool is these two certificates
+	if _, err = x509.SystemCertPool(); err != nil {
+		return fail(err)
+	}
+	return sr
+}
+
+// c13SystemPoolCheck: the system pool of this process is the two roots — a leaf under `root` verifies
+// with Roots == nil for its name, one under neither does not. Fatal otherwise: the cases that tell
+// "no trust anchor" from "system trust store" would be vacuous.
+func c13SystemPoolCheck(t *testing.T, w *c13World) {
+	if c13Sys.err != nil {
+		t.Fatalf("c13: cannot install the harness roots as the system trust store of the test process: %v", c13Sys.err)
+	}
+	for _, ck := range c13ChainKinds {
+		ch := w.chains[ck]
+		if len(ch.certs) == 0 {
+			continue
+		}
+		inters := x509.NewCertPool()
+		for _, c := range ch.certs[1:] {
+			inters.AddCert(c)
+		}
+		_, err := ch.certs[0].Verify(x509.VerifyOptions{DNSName: c13MX, Intermediates: inters}) // Roots nil: the system pool
+		if (err == nil) != ch.pkix {
+			t.Fatalf("c13 self-check: chain %s under the SYSTEM trust store of the test process: verifies=%v, expected %v "+
+				"(the harness roots are not — or not alone — the system pool; SSL_CERT_FILE=%q)", ck, err == nil, ch.pkix, os.Getenv("SSL_CERT_FILE"))
+		}
+	}
 }
 
 func c13CA(cn string, now time.Time) *x509.Certificate {
@@ -155,9 +246,13 @@ func c13MakePKI(t *testing.T) *c13PKI {
 	p := &c13PKI{keys: map[*x509.Certificate]*ecdsa.PrivateKey{}}
 	rootK, interK, foreignK, selfK := c13Key(t), c13Key(t), c13Key(t), c13Key(t)
 	leafK, expK, wrongK, canonK, fleafK := c13Key(t), c13Key(t), c13Key(t), c13Key(t), c13Key(t)
-	p.root = c13Sign(t, c13CA("verif root", now), nil, rootK, nil)
+	if c13Sys.err != nil {
+		t.Fatalf("c13: cannot install the harness roots as the system trust store of the test process: %v", c13Sys.err)
+	}
+	// the two roots are the ones installed as the system trust store of this process
+	rootK, foreignK = c13Sys.rootKey, c13Sys.foreignKey
+	p.root, p.foreign = c13Sys.root, c13Sys.foreign
 	p.inter = c13Sign(t, c13CA("verif intermediate", now), p.root, interK, rootK)
-	p.foreign = c13Sign(t, c13CA("verif foreign root", now), nil, foreignK, nil)
 	p.leaf = c13Sign(t, c13Leaf("leaf", c13MX, now.Add(-year), now.Add(10*year)), p.inter, leafK, interK)
 	p.foreignLeaf = c13Sign(t, c13Leaf("leaf of the foreign ca", c13MX, now.Add(-year), now.Add(10*year)), p.foreign, fleafK, foreignK)
 	p.expLeaf = c13Sign(t, c13Leaf("expired leaf", c13MX, now.Add(-2*year), now.Add(-year)), p.inter, expK, interK)
@@ -884,7 +979,9 @@ func c13ParseVerify(op string) (ck string, hs, vc bool, recs []c13Rec, err error
 func c13NewWorld(t *testing.T) *c13World {
 	verifyDANETime = time.Time{}
 	p := c13MakePKI(t)
-	return &c13World{pki: p, chains: c13MakeChains(t, p)}
+	w := &c13World{pki: p, chains: c13MakeChains(t, p)}
+	c13SystemPoolCheck(t, w)
+	return w
 }
 
 func c13Shuffle(r *vh.Rng, recs []c13Rec) []c13Rec {
@@ -1010,6 +1107,74 @@ func TestVerifC13Verify(t *testing.T) {
 	}
 	out.Note(fmt.Sprintf("verify: stray-anchor chains x usable DANE-TA types, with / without VerifiedChains: %d cases", cnt1d))
 
+	// (1e) usable DANE-TA records none of which matches a CA certificate of the presented chain — a stale
+	// pin (the CA rotated its intermediate: data of no presented certificate, or of a CA that is not in
+	// the chain), a pin that matches only the non-CA leaf — while the chain IS valid for the MX name under
+	// the SYSTEM trust store of the process (c13InstallSystemRoots: both roots of the harness; chains LI,
+	// LIR, G, J, M) or is not (L, W, X, LR): no trust anchor is asserted, the connection is refused. An
+	// implementation that lets crypto/x509 fall back to the system pool authenticates the first group.
+	cnt1e := 0
+	var stale []c13Rec
+	for _, s := range []uint8{0, 1} {
+		for _, m := range []uint8{0, 1, 2} {
+			for _, tg := range []byte{'L', 'N', 'F'} {
+				stale = append(stale, c13Rec{usage: 2, sel: s, mt: m, target: tg, dsel: s, dmt: m})
+			}
+		}
+	}
+	for _, ck := range []string{"LI", "LIR", "G", "J", "M", "L", "W", "X", "LR"} {
+		for _, vc := range []bool{true, false} {
+			if vc && w.chains[ck].verified == nil {
+				continue
+			}
+			for i, a := range stale {
+				if a.target == 'F' && (ck == "G" || ck == "J" || ck == "M") {
+					continue // the foreign root is presented in these: block (1d)
+				}
+				w.verifyCaseV(out, []c13Rec{a}, ck, true, vc, true)
+				w.verifyCaseV(out, c13Shuffle(rng, []c13Rec{a, eeMiss}), ck, true, vc, true)
+				b := stale[(i+1+rng.Intn(len(stale)-1))%len(stale)]
+				w.verifyCaseV(out, []c13Rec{a, b}, ck, true, vc, true)
+				cnt1e += 3
+			}
+		}
+	}
+	out.Note(fmt.Sprintf("verify: DANE-TA records matching no presented CA certificate x chains valid / not valid under the system trust store: %d cases", cnt1e))
+
+	// (1f) ORDERED pairs of usable records of one usage with different (selector, matching type): the
+	// second record declares one form and carries the association data of the certificate under the
+	// FIRST record's form (so it matches nothing), the first one is of that form and matches nothing /
+	// matches. An implementation that keeps per-certificate association data between records (a cache
+	// keyed by less than the pair) compares the second record with the wrong digest. Both orders.
+	cnt1f := 0
+	forms := [][2]uint8{{0, 0}, {0, 1}, {0, 2}, {1, 0}, {1, 1}, {1, 2}}
+	for _, usage := range []uint8{2, 3} {
+		tg := byte('L')
+		if usage == 2 {
+			tg = 'I'
+		}
+		for _, f1 := range forms {
+			for _, f2 := range forms {
+				if f1 == f2 {
+					continue
+				}
+				first := c13Rec{usage: usage, sel: f1[0], mt: f1[1], target: 'N', dsel: f1[0], dmt: f1[1]}
+				second := c13Rec{usage: usage, sel: f2[0], mt: f2[1], target: tg, dsel: f1[0], dmt: f1[1]}
+				for _, ck := range []string{"LIR", "LI"} {
+					w.verifyCaseV(out, []c13Rec{first, second}, ck, true, false, true)
+					w.verifyCaseV(out, []c13Rec{second, first}, ck, true, false, true)
+					cnt1f += 2
+				}
+				// the first one matches: authenticated either way; then a stale one of the other form in front
+				first.target = tg
+				w.verifyCaseV(out, []c13Rec{first, second}, "LIR", true, false, true)
+				w.verifyCaseV(out, []c13Rec{second, first}, "LIR", true, false, true)
+				cnt1f += 2
+			}
+		}
+	}
+	out.Note(fmt.Sprintf("verify: ordered pairs of record forms, the second carrying the data of the first one's form: %d cases", cnt1f))
+
 	// (2) every multiset of size 2 over the stated record types, completed handshake (without a
 	// handshake the verdict only depends on emptiness: sampled below): quick on the full chain,
 	// thorough on all nine chains
@@ -1120,7 +1285,21 @@ func c13Level(l module.TLSLevel) string {
 	return fmt.Sprintf("level%d", int(l))
 }
 
-func c13CallCheckConn(d *daneDelivery, st tls.ConnectionState) (lvl module.TLSLevel, err error, panicked bool) {
+// c13Deliv: the per-delivery object of the DANE policy, made the way the remote target makes it
+// (danePolicy.Start) and used through the methods of module.DeliveryMXAuthPolicy ONLY — how the
+// delivery keeps the pending discovery (one future, a table of them keyed by host, …) is its own
+// business, and a harness reaching into it would decide that question instead of observing it.
+func c13Deliv(pol *danePolicy) module.DeliveryMXAuthPolicy {
+	return pol.Start(&module.MsgMetadata{ID: "c13"})
+}
+
+func c13CallCheckConn(d module.DeliveryMXAuthPolicy, st tls.ConnectionState) (lvl module.TLSLevel, err error, panicked bool) {
+	return c13CallCheckConnMX(d, c13MX, st)
+}
+
+// mx: the MX host name as attemptMX hands it to PrepareConn AND CheckConn (record.Host, the same
+// string both times)
+func c13CallCheckConnMX(d module.DeliveryMXAuthPolicy, mx string, st tls.ConnectionState) (lvl module.TLSLevel, err error, panicked bool) {
 	defer func() {
 		if r := recover(); r != nil {
 			panicked = true
@@ -1128,24 +1307,28 @@ func c13CallCheckConn(d *daneDelivery, st tls.ConnectionState) (lvl module.TLSLe
 	}()
 	ctx, cancel := context.WithTimeout(context.Background(), 30*time.Second)
 	defer cancel()
-	lvl, err = d.CheckConn(ctx, module.MXNone, module.TLSEncrypted, "verif.test", c13MX, st)
+	lvl, err = d.CheckConn(ctx, module.MXNone, module.TLSEncrypted, "verif.test", mx, st)
 	return
 }
 
-// the discovery errors CheckConn can meet; the class (nf / ot / na) is what the model sees
+// the ways a discovery can end in an error, each produced for real (the harness does not plant a result
+// in the delivery object: PrepareConn runs the discovery against the scripted server); the class
+// (nf / ot / na) of the error the discovery ends in is what the model sees
 var c13FutErrs = []struct {
 	name, class string
-	err         error
+	zone        c13Zone // the world the scripted server answers from
+	how         byte    // 0 the zone does it; g the server replies with garbage; d / c the context PrepareConn is handed is past its deadline / cancelled
 }{
-	{"rcode-nxdomain", "nf", dns.RCodeError{Name: c13MXFQ, Code: miekgdns.RcodeNameError}},
-	{"neterr-notfound", "nf", &net.DNSError{Err: "no such host", Name: c13MX, IsNotFound: true}},
-	{"rcode-servfail", "ot", dns.RCodeError{Name: c13MXFQ, Code: miekgdns.RcodeServerFailure}},
-	{"rcode-refused", "ot", dns.RCodeError{Name: c13MXFQ, Code: miekgdns.RcodeRefused}},
-	{"neterr-timeout", "ot", &net.DNSError{Err: "i/o timeout", Name: c13MX, IsTimeout: true}},
-	{"io-error", "ot", errors.New("read udp 127.0.0.1:53: connection refused")},
-	{"ctx-deadline", "ot", context.DeadlineExceeded},
-	{"ctx-canceled", "ot", context.Canceled},
-	{"no-address", "na", errors.New("no address associated with the host")},
+	{"rcode-nxdomain", "nf", c13Zone{a: "X", c: "-", q: "-", r: "X", m: "X", f: 2}, 0},
+	{"canon-nxdomain", "nf", c13Zone{a: "-", c: "sX", q: "-", r: "X", m: "X", f: 2}, 0},
+	{"rcode-servfail", "ot", c13Zone{a: "F", c: "-", q: "-", r: "X", m: "X", f: 2}, 0},
+	{"rcode-refused", "ot", c13Zone{a: "F", c: "-", q: "-", r: "X", m: "X", f: 5}, 0},
+	{"tlsa-servfail", "ot", c13Zone{a: "s", c: "-", q: "-", r: "X", m: "F", f: 2}, 0},
+	{"tlsa-notimp", "ot", c13Zone{a: "6", c: "-", q: "-", r: "X", m: "F", f: 4}, 0},
+	{"garbage-reply", "ot", c13Zone{a: "s", c: "-", q: "-", r: "X", m: "X", f: 2}, 'g'},
+	{"ctx-deadline", "ot", c13Zone{a: "s", c: "-", q: "-", r: "X", m: "X", f: 2}, 'd'},
+	{"ctx-canceled", "ot", c13Zone{a: "s", c: "-", q: "-", r: "X", m: "X", f: 2}, 'c'},
+	{"no-address", "na", c13Zone{a: "N", c: "-", q: "-", r: "X", m: "X", f: 2}, 0},
 }
 
 // monitor shared by the CheckConn-level ops. lookupFailed: discovery ended in an error that is not
@@ -1195,54 +1378,73 @@ func (w *c13World) connMonitor(out *vh.Out, op string, haveResolver, lookupFaile
 	}
 }
 
-func (w *c13World) checkCase(out *vh.Out, haveResolver bool, fut string, recs []c13Rec, ck string, hs bool) {
+// op `check`: CheckConn after a discovery that ended in a given way — with the records `recs` (a signed
+// RRset under the usual name of a secure host), or in one of c13FutErrs. The discovery is the real one,
+// started by PrepareConn; host: the spelling of the MX host name both methods are handed.
+func (w *c13World) checkCase(out *vh.Out, haveResolver bool, fut string, recs []c13Rec, ck string, hs bool, host int) {
 	ch := w.chains[ck]
 	var toks []string
-	var rrs []dns.TLSA
 	for _, r := range recs {
 		toks = append(toks, w.recToken(r, ch))
-		rrs = append(rrs, w.tlsa(r, ch))
 	}
 	class := "ok"
-	var ferr error
+	failing := false
+	z := c13Zone{a: "s", c: "-", q: "-", r: "X", m: "s", f: 2, recsM: recs}
+	if len(recs) == 0 {
+		z.m = "e"
+	}
+	var how byte
 	if fut != "ok" {
 		for _, fe := range c13FutErrs {
 			if fe.name == fut {
-				class, ferr = "e:"+fe.class, fe.err
+				class, z, how, failing = "e:"+fe.class, fe.zone, fe.how, true
 			}
 		}
-		if ferr == nil {
+		if !failing {
 			panic("unknown fut " + fut)
 		}
 	}
-	op := strings.TrimRight(fmt.Sprintf("C13 check z=%s;%s %s %s %s %s | %s", ck, fut, c13b(haveResolver), class, c13b(hs), ch.token(), strings.Join(toks, " ")), " ")
+	op := strings.TrimRight(fmt.Sprintf("C13 check z=%s;%s%s %s %s %s %s | %s", ck, fut, c13SpellCode(host), c13b(haveResolver), class, c13b(hs), ch.token(), strings.Join(toks, " ")), " ")
 
+	d := w.dns
+	d.set(w.script(z, ch))
+	d.setGarbage(how == 'g')
+	defer d.setGarbage(false)
 	pol := &danePolicy{log: log.Logger{Name: "remote/dane"}}
 	if haveResolver {
-		pol.extResolver = &dns.ExtResolver{}
+		pol.extResolver = d.ext
 	}
-	d := &daneDelivery{c: pol, tlsaFut: future.New()}
-	if ferr != nil {
-		d.tlsaFut.Set([]dns.TLSA(nil), ferr)
-	} else {
-		d.tlsaFut.Set(rrs, nil)
+	dd := c13Deliv(pol)
+	mx := c13HostSpellings[host]
+	pctx, pcancel := context.WithTimeout(context.Background(), 30*time.Second)
+	switch how {
+	case 'd':
+		pcancel()
+		pctx, pcancel = context.WithDeadline(context.Background(), time.Unix(1, 0))
+	case 'c':
+		pcancel()
 	}
-	lvl, err, panicked := c13CallCheckConn(d, w.connState(hs, ch))
+	defer pcancel()
+	dd.PrepareConn(pctx, mx)
+	lvl, err, panicked := c13CallCheckConnMX(dd, mx, w.connState(hs, ch))
 	obs := "panic"
 	if !panicked {
 		obs = "ret " + c13Level(lvl) + " " + c13ErrKind(err)
 	}
 	out.Corr(op, obs)
-	w.connMonitor(out, op, haveResolver, ferr != nil && class != "e:nf", ferr == nil, recs, ch, hs, lvl, err, panicked)
+	w.connMonitor(out, op, haveResolver, failing && class != "e:nf", !failing, recs, ch, hs, lvl, err, panicked)
 	out.Stat("check/fut:" + fut)
 	out.Stat("check/outcome:" + obs)
 	out.Stat("check/resolver:" + c13b(haveResolver))
+	out.Stat(fmt.Sprintf("check/host-spelling:%d", host))
 }
 
 func TestVerifC13CheckConn(t *testing.T) {
 	out := vh.Open("c13_check")
 	defer out.Close()
 	w := c13NewWorld(t)
+	w.dns = c13StartDNS(t)
+	defer w.dns.Close()
 
 	if rp := vh.Replay(); rp != nil {
 		for _, op := range rp {
@@ -1264,10 +1466,11 @@ func TestVerifC13CheckConn(t *testing.T) {
 					recs = append(recs, r)
 				}
 			}
-			if len(z) != 2 || w.chains[z[0]] == nil {
+			z, host, perr := c13ParseSpell(z)
+			if perr != nil || len(z) != 2 || w.chains[z[0]] == nil {
 				t.Fatalf("cannot replay %q", op)
 			}
-			w.checkCase(out, toks[3] == "1", z[1], recs, z[0], toks[5] == "1")
+			w.checkCase(out, toks[3] == "1", z[1], recs, z[0], toks[5] == "1", host)
 		}
 		return
 	}
@@ -1275,11 +1478,15 @@ func TestVerifC13CheckConn(t *testing.T) {
 	rng := vh.NewRng(vh.Seed() + 1301).Fork() // Fork: consecutive seeds of vh.NewRng give the same stream shifted by one draw
 	types := c13StatedRecTypes()
 	// every discovery error kind x TLS state x a few chains: the fail-closed table
-	for _, fe := range c13FutErrs {
+	for fi, fe := range c13FutErrs {
 		for _, hs := range []bool{true, false} {
 			for _, ck := range []string{"LIR", "L", "E"} {
 				for _, hr := range []bool{true, false} {
-					w.checkCase(out, hr, fe.name, nil, ck, hs)
+					w.checkCase(out, hr, fe.name, nil, ck, hs, 0)
+				}
+				if ck != "L" {
+					// under another spelling of the host name (rotating)
+					w.checkCase(out, true, fe.name, nil, ck, hs, 1+(fi+len(ck))%(len(c13HostSpellings)-1))
 				}
 			}
 		}
@@ -1296,9 +1503,14 @@ func TestVerifC13CheckConn(t *testing.T) {
 			}
 		}
 		if k >= 1 && rng.Chance(35) {
-			o := uint8(1 + rng.Intn(len(c13Owners)-1))
+			o := uint8(1 + rng.Intn(c13WireOwners-1))
 			for j := range recs {
 				recs[j].owner = o
+			}
+		}
+		for j := range recs {
+			if int(recs[j].owner) >= c13WireOwners {
+				recs[j].owner = 0 // the RRset travels over the wire now
 			}
 		}
 		ck := c13ChainKinds[rng.Intn(len(c13ChainKinds))]
@@ -1311,7 +1523,11 @@ func TestVerifC13CheckConn(t *testing.T) {
 			fut = c13FutErrs[rng.Intn(len(c13FutErrs))].name
 			recs = nil
 		}
-		w.checkCase(out, !rng.Chance(8), fut, recs, ck, hs)
+		host := 0
+		if rng.Chance(50) {
+			host = rng.Intn(len(c13HostSpellings))
+		}
+		w.checkCase(out, !rng.Chance(8), fut, recs, ck, hs, host)
 	}
 }
 
@@ -1525,8 +1741,9 @@ func (w *c13World) ansToken(ad bool, recs []dns.TLSA, err error, ch *c13Chain) s
 
 // c13DNS is a scripted DNS server on loopback (UDP) and an ExtResolver pointed at it.
 type c13DNS struct {
-	mu     sync.Mutex
-	script map[string]c13Answer
+	mu      sync.Mutex
+	garbage bool // every question is answered with three bytes that are no DNS message
+	script  map[string]c13Answer
 	srv    *miekgdns.Server
 	ext    *dns.ExtResolver
 }
@@ -1538,7 +1755,12 @@ func (d *c13DNS) ServeDNS(wr miekgdns.ResponseWriter, m *miekgdns.Msg) {
 	q := m.Question[0]
 	d.mu.Lock()
 	ans, ok := d.script[c13QKey(q.Name, q.Qtype)]
+	garbage := d.garbage
 	d.mu.Unlock()
+	if garbage {
+		_, _ = wr.Write([]byte{0xde, 0xad, 0xbe})
+		return
+	}
 	switch {
 	case !ok:
 		reply.Rcode = miekgdns.RcodeNameError
@@ -1554,6 +1776,12 @@ func (d *c13DNS) ServeDNS(wr miekgdns.ResponseWriter, m *miekgdns.Msg) {
 func (d *c13DNS) set(sc map[string]c13Answer) {
 	d.mu.Lock()
 	d.script = sc
+	d.mu.Unlock()
+}
+
+func (d *c13DNS) setGarbage(on bool) {
+	d.mu.Lock()
+	d.garbage = on
 	d.mu.Unlock()
 }
 
@@ -1693,17 +1921,17 @@ func (w *c13World) discCase(t *testing.T, out *vh.Out, z c13Zone) {
 	// One policy-delivery object serves every MX candidate (and recipient domain) of a message:
 	// keep it for a few consecutive cases, as the remote target does, so that state left over
 	// from an earlier PrepareConn/CheckConn would show.
-	if c13SharedDD == nil || c13SharedDDUses >= 3 {
-		c13SharedDD = &daneDelivery{c: &danePolicy{extResolver: d.ext, log: log.Logger{Name: "remote/dane"}}}
-		c13SharedDDUses = 0
-	}
-	c13SharedDDUses++
-	dd := c13SharedDD
-	dd.c.extResolver = d.ext
+	dd := c13SharedDelivery(d.ext)
 	out.Stat(fmt.Sprintf("conn/delivery-reuse:%d", c13SharedDDUses))
 	ctx, cancel := context.WithTimeout(context.Background(), 30*time.Second)
 	defer cancel()
-	recs, err := dd.discoverTLSA(ctx, c13MXFQ)
+	disc, isDisc := dd.(interface {
+		discoverTLSA(ctx context.Context, mx string) ([]dns.TLSA, error)
+	})
+	if !isDisc {
+		t.Fatalf("c13: the delivery object of the DANE policy (%T) has no discoverTLSA(ctx, mx) method any more", dd)
+	}
+	recs, err := disc.discoverTLSA(ctx, c13MXFQ)
 	var obs string
 	switch {
 	case err == nil:
@@ -2070,38 +2298,21 @@ func c13LookupGone() bool {
 	return !bytes.Contains(c13StackBuf[:n], []byte("created by github.com/foxcpp/maddy/internal/target/remote.(*daneDelivery).PrepareConn"))
 }
 
-// is the future of the delivery complete? (Future.GetContext looks at the value before it looks at
-// the context: with a context that is already over it answers at once)
-func c13FutureComplete(d *daneDelivery) (complete bool) {
-	defer func() {
-		if r := recover(); r != nil {
-			complete = true // no future at all: let CheckConn meet that itself
-		}
-	}()
-	ctx, cancel := context.WithCancel(context.Background())
-	cancel()
-	_, err := d.tlsaFut.GetContext(ctx)
-	return !errors.Is(err, context.Canceled)
-}
-
-// c13SettleFuture waits until the state of the delivery's future is final and reports it: complete
-// (a discovery — or whoever — has set it), or empty with no lookup goroutine left, so that nobody
-// will ever complete it. A crashed discovery is told from a slow one without looking at a clock.
-func c13SettleFuture(d *daneDelivery) (complete bool) {
+// c13SettleLookup waits until no goroutine started by PrepareConn is left: the discovery has returned
+// (and has handed over its result) or has crashed (and every deferred handler of it has run). From
+// then on the state of the delivery is final. The delivery object is not looked into.
+func c13SettleLookup() (gone bool) {
 	start := time.Now()
 	lastDump := start
 	for {
-		if c13FutureComplete(d) {
-			return true
-		}
 		// pacing only (no verdict depends on these times): the goroutine dump stops the world — the
-		// first one after half a millisecond (a discovery that returns has usually done so by then),
-		// then one per 300 microseconds; spin for the first milliseconds (a sleep is much longer than a
-		// lookup), sleep afterwards
+		// first one after 300 microseconds (a discovery that returns or crashes has usually done so by
+		// then), then one per 300 microseconds; spin for the first milliseconds (a sleep is much longer
+		// than a lookup), sleep afterwards
 		now := time.Now()
-		if now.Sub(start) > 500*time.Microsecond && now.Sub(lastDump) > 300*time.Microsecond {
+		if now.Sub(start) > 300*time.Microsecond && now.Sub(lastDump) > 300*time.Microsecond {
 			if c13LookupGone() {
-				return c13FutureComplete(d)
+				return true
 			}
 			lastDump = time.Now()
 			if now.Sub(start) > 60*time.Second {
@@ -2124,10 +2335,13 @@ func c13SilenceDefaultLog() func() {
 	return func() { log.DefaultLogger.Out = old }
 }
 
-// CheckConn after a discovery that may have crashed. If the future is empty and no lookup goroutine
-// is left, nobody will ever complete it, and the wait in CheckConn can only end with the delivery's
-// context — which is over, then, when CheckConn is called. No clock is involved.
-func c13CheckConnAfter(d *daneDelivery, st tls.ConnectionState) (lvl module.TLSLevel, err error, panicked bool) {
+// CheckConn after a discovery that may have crashed. When the injected panic was raised (observed /
+// known by construction: `crashed`) and no lookup goroutine is left, nobody will ever deliver a
+// discovery result, and a wait for one in CheckConn can only end with the delivery's context — which
+// is over, then, when CheckConn is called (Future.GetContext looks at the value before it looks at the
+// context: a result that WAS delivered — by a discovery that ended before the crash point, or by a
+// patched-in recover handler — is seen all the same). No clock is involved.
+func c13CheckConnAfter(d module.DeliveryMXAuthPolicy, mx string, haveResolver bool, crashed func() bool, st tls.ConnectionState) (lvl module.TLSLevel, err error, panicked bool) {
 	defer func() {
 		if r := recover(); r != nil {
 			panicked = true
@@ -2135,27 +2349,64 @@ func c13CheckConnAfter(d *daneDelivery, st tls.ConnectionState) (lvl module.TLSL
 	}()
 	ctx, cancel := context.WithTimeout(context.Background(), 30*time.Second)
 	defer cancel()
-	if d.c.extResolver != nil && !c13SettleFuture(d) {
+	if haveResolver && c13SettleLookup() && crashed() {
 		cancel()
 	}
-	lvl, err = d.CheckConn(ctx, module.MXNone, module.TLSEncrypted, "verif.test", c13MX, st)
+	lvl, err = d.CheckConn(ctx, module.MXNone, module.TLSEncrypted, "verif.test", mx, st)
 	return
 }
 
 // ---------------------------------------------------------------- PrepareConn + CheckConn against a DNS server
 
 var (
-	c13SharedDD     *daneDelivery
+	c13SharedPol    *danePolicy
+	c13SharedDD     module.DeliveryMXAuthPolicy
 	c13SharedDDUses int
 )
 
+// One policy-delivery object serves every MX candidate (and recipient domain) of a message: keep it
+// for a few consecutive cases, as the remote target does, so that state left over from an earlier
+// PrepareConn/CheckConn would show.
+func c13SharedDelivery(ext *dns.ExtResolver) module.DeliveryMXAuthPolicy {
+	if c13SharedDD == nil || c13SharedDDUses >= 3 {
+		c13SharedPol = &danePolicy{extResolver: ext, log: log.Logger{Name: "remote/dane"}}
+		c13SharedDD = c13Deliv(c13SharedPol)
+		c13SharedDDUses = 0
+	}
+	c13SharedDDUses++
+	c13SharedPol.extResolver = ext
+	return c13SharedDD
+}
+
+// c13SpellCode / c13ParseSpell: the spelling of the MX host name (index into c13HostSpellings) as the
+// last part of a z= code, "h<k>"; absent = 0
+func c13SpellCode(host int) string {
+	if host == 0 {
+		return ""
+	}
+	return fmt.Sprintf(";h%d", host)
+}
+
+func c13ParseSpell(parts []string) ([]string, int, error) {
+	if n := len(parts); n > 0 && len(parts[n-1]) >= 2 && parts[n-1][0] == 'h' {
+		if k, err := strconv.Atoi(parts[n-1][1:]); err == nil {
+			if k < 0 || k >= len(c13HostSpellings) {
+				return nil, 0, fmt.Errorf("bad host spelling %q", parts[n-1])
+			}
+			return parts[:n-1], k, nil
+		}
+	}
+	return parts, 0, nil
+}
+
 func (w *c13World) connCase(t *testing.T, out *vh.Out, z c13Zone, ck string, hs bool) {
-	w.connCaseX(t, out, z, ck, hs, "")
+	w.connCaseX(t, out, z, ck, hs, "", 0)
 }
 
 // inj: the crash injected into the discovery (c13Crash; "" = none, op `conn`; else op `cconn`, which
 // carries whether the injection fired)
-func (w *c13World) connCaseX(t *testing.T, out *vh.Out, z c13Zone, ck string, hs bool, inj string) {
+// host: the spelling of the MX host name PrepareConn and CheckConn are handed (c13HostSpellings)
+func (w *c13World) connCaseX(t *testing.T, out *vh.Out, z c13Zone, ck string, hs bool, inj string, host int) {
 	cr, cerr := c13ParseCrash(inj)
 	if cerr != nil {
 		t.Fatal(cerr)
@@ -2163,30 +2414,23 @@ func (w *c13World) connCaseX(t *testing.T, out *vh.Out, z c13Zone, ck string, hs
 	ch := w.chains[ck]
 	d := w.dns
 	d.set(w.script(z, ch))
-	ock, ocn, trTok, tmTok, _ := w.oracle(d, ch)
-	op := fmt.Sprintf("C13 conn z=%s;%s 1 %s %s %s %s %s %s", z.code(), ck, ock, ocn, trTok, tmTok, c13b(hs), ch.token())
+	mx := c13HostSpellings[host]
+	ock, ocn, trTok, tmTok, _ := w.oracleFor(d, ch, dns.FQDN(mx))
+	op := fmt.Sprintf("C13 conn z=%s;%s%s 1 %s %s %s %s %s %s", z.code(), ck, c13SpellCode(host), ock, ocn, trTok, tmTok, c13b(hs), ch.token())
 
-	// One policy-delivery object serves every MX candidate (and recipient domain) of a message:
-	// keep it for a few consecutive cases, as the remote target does, so that state left over
-	// from an earlier PrepareConn/CheckConn would show.
-	var dd *daneDelivery
+	var dd module.DeliveryMXAuthPolicy
 	if inj != "" {
 		// a delivery object of its own: the future a crashed discovery leaves empty stays out of the
 		// cases that follow
-		dd = &daneDelivery{c: &danePolicy{extResolver: cr.resolver(d.ext), log: cr.logger("remote/dane", false)}}
+		dd = c13Deliv(&danePolicy{extResolver: cr.resolver(d.ext), log: cr.logger("remote/dane", false)})
 	} else {
-		if c13SharedDD == nil || c13SharedDDUses >= 3 {
-			c13SharedDD = &daneDelivery{c: &danePolicy{extResolver: d.ext, log: log.Logger{Name: "remote/dane"}}}
-			c13SharedDDUses = 0
-		}
-		c13SharedDDUses++
-		dd = c13SharedDD
-		dd.c.extResolver = d.ext
+		dd = c13SharedDelivery(d.ext)
 		out.Stat(fmt.Sprintf("conn/delivery-reuse:%d", c13SharedDDUses))
 	}
+	out.Stat(fmt.Sprintf("conn/host-spelling:%d", host))
 	ctx, cancel := context.WithTimeout(context.Background(), 30*time.Second)
 	defer cancel()
-	dd.PrepareConn(cr.ctx(ctx), c13MX)
+	dd.PrepareConn(cr.ctx(ctx), mx)
 	var (
 		lvl      module.TLSLevel
 		err      error
@@ -2194,11 +2438,11 @@ func (w *c13World) connCaseX(t *testing.T, out *vh.Out, z c13Zone, ck string, hs
 	)
 	fired := false
 	if inj == "" {
-		lvl, err, panicked = c13CallCheckConn(dd, w.connState(hs, ch))
+		lvl, err, panicked = c13CallCheckConnMX(dd, mx, w.connState(hs, ch))
 	} else {
-		lvl, err, panicked = c13CheckConnAfter(dd, w.connState(hs, ch))
+		lvl, err, panicked = c13CheckConnAfter(dd, mx, true, cr.didFire, w.connState(hs, ch))
 		fired = cr.didFire()
-		op = fmt.Sprintf("C13 cconn z=%s;%s;%s %s %s %s %s %s %s %s", z.code(), ck, inj, c13b(fired), ock, ocn, trTok, tmTok, c13b(hs), ch.token())
+		op = fmt.Sprintf("C13 cconn z=%s;%s;%s%s %s %s %s %s %s %s %s", z.code(), ck, inj, c13SpellCode(host), c13b(fired), ock, ocn, trTok, tmTok, c13b(hs), ch.token())
 		out.Stat("cconn/injection:" + inj[:1] + " fired:" + c13b(fired))
 	}
 	obs := "panic"
@@ -2255,16 +2499,16 @@ func TestVerifC13Conn(t *testing.T) {
 			}
 			toks := strings.Fields(op)
 			code := strings.TrimPrefix(toks[2], "z=")
-			parts := strings.Split(code, ";")
+			parts, host, perr := c13ParseSpell(strings.Split(code, ";"))
 			z, err := c13ParseZone(code)
-			if err != nil || (isConn && len(parts) != 4) || (isCrash && len(parts) != 5) || w.chains[parts[3]] == nil {
-				t.Fatalf("cannot replay %q: %v", op, err)
+			if err != nil || perr != nil || (isConn && len(parts) != 4) || (isCrash && len(parts) != 5) || w.chains[parts[3]] == nil {
+				t.Fatalf("cannot replay %q: %v %v", op, err, perr)
 			}
 			inj := ""
 			if isCrash {
 				inj = parts[4]
 			}
-			w.connCaseX(t, out, z, parts[3], toks[len(toks)-2] == "1", inj)
+			w.connCaseX(t, out, z, parts[3], toks[len(toks)-2] == "1", inj, host)
 		}
 		return
 	}
@@ -2282,7 +2526,11 @@ func TestVerifC13Conn(t *testing.T) {
 			if !hs && rng.Chance(60) {
 				ck = "E"
 			}
-			w.connCase(t, out, z, ck, hs)
+			host := 0
+			if rng.Chance(30) {
+				host = rng.Intn(len(c13HostSpellings))
+			}
+			w.connCaseX(t, out, z, ck, hs, "", host)
 		}
 	}
 	// the zones in which records are actually found, more often: secure host, signed RRset
@@ -2292,7 +2540,11 @@ func TestVerifC13Conn(t *testing.T) {
 		z := good[rng.Intn(len(good))]
 		w.fillZoneRecs(rng, &z)
 		ck := c13ChainKinds[rng.Intn(len(c13ChainKinds)-1)]
-		w.connCase(t, out, z, ck, rng.Chance(90))
+		host := 0
+		if rng.Chance(50) {
+			host = rng.Intn(len(c13HostSpellings))
+		}
+		w.connCaseX(t, out, z, ck, rng.Chance(90), "", host)
 	}
 	// the discovery crashes: empty server list, panicking log output (after the lookups), a panic
 	// inside the resolver library at the k-th step — in the worlds where records would be found (the
@@ -2303,10 +2555,28 @@ func TestVerifC13Conn(t *testing.T) {
 	pinned := c13Zone{a: "s", c: "-", q: "-", r: "X", m: "s", f: 2, recsM: []c13Rec{{usage: 3, sel: 1, mt: 1, target: 'L', dsel: 1, dmt: 1}}}
 	pinnedI := pinned
 	pinnedI.recsM = []c13Rec{{usage: 3, sel: 1, mt: 1, target: 'I', dsel: 1, dmt: 1}}
-	for _, inj := range []string{"E", "L", "D1", "D3", "D5"} {
-		w.connCaseX(t, out, pinned, "E", false, inj)
-		w.connCaseX(t, out, pinnedI, "LIR", true, inj)
-		w.connCaseX(t, out, pinned, "LIR", true, inj)
+	// the MX host name in every spelling the remote target can hand over (an MX record's target with
+	// its trailing dot, in the zone's spelling; the implicit MX of a domain without MX RRset: the
+	// recipient domain as typed, no dot): the RRset published for `_25._tcp.<mx>` in the signed zone
+	// governs the connection whatever the spelling — plaintext and a non-matching certificate are refused,
+	// the matching one is authenticated. Also under the canonical name of an aliased host, and with a
+	// DANE-TA record.
+	pinnedTA := pinned
+	pinnedTA.recsM = []c13Rec{{usage: 2, sel: 0, mt: 1, target: 'I', dsel: 0, dmt: 1}}
+	aliased := c13Zone{a: "-", c: "ss", q: "-", r: "s", m: "X", f: 2, recsR: pinned.recsM}
+	for h := range c13HostSpellings {
+		w.connCaseX(t, out, pinned, "E", false, "", h)
+		w.connCaseX(t, out, pinnedI, "LIR", true, "", h)
+		w.connCaseX(t, out, pinned, "LIR", true, "", h)
+		w.connCaseX(t, out, pinnedTA, "W", true, "", h)
+		w.connCaseX(t, out, pinnedTA, "LI", true, "", h)
+		w.connCaseX(t, out, aliased, "E", false, "", h)
+		w.connCaseX(t, out, aliased, "F", true, "", h)
+	}
+	for i, inj := range []string{"E", "L", "D1", "D3", "D5"} {
+		w.connCaseX(t, out, pinned, "E", false, inj, 0)
+		w.connCaseX(t, out, pinnedI, "LIR", true, inj, 0)
+		w.connCaseX(t, out, pinned, "LIR", true, inj, 1+i%(len(c13HostSpellings)-1))
 	}
 	n = vh.N(4000) / 40
 	for i := 0; i < n; i++ {
@@ -2324,7 +2594,11 @@ func TestVerifC13Conn(t *testing.T) {
 		if i%3 == 0 {
 			inj = crashes[i/3%2]
 		}
-		w.connCaseX(t, out, z, ck, hs, inj)
+		host := 0
+		if rng.Chance(30) {
+			host = rng.Intn(len(c13HostSpellings))
+		}
+		w.connCaseX(t, out, z, ck, hs, inj, host)
 	}
 }
 
@@ -2719,7 +2993,7 @@ func (w *c13World) netCase(t *testing.T, out *vh.Out, env *c13NetEnv, n c13Net, 
 	}
 
 	op := strings.TrimRight(fmt.Sprintf("C13 rconn z=%s %s %s %s", n.code(), c13b(n.hs), ch.token(), srvTok), " ")
-	dd := &daneDelivery{c: &danePolicy{extResolver: &ext, log: log.Logger{Name: "remote/dane"}}}
+	dd := c13Deliv(&danePolicy{extResolver: &ext, log: log.Logger{Name: "remote/dane"}})
 	dd.PrepareConn(ctx, c13MX)
 	var (
 		lvl      module.TLSLevel
@@ -2729,7 +3003,7 @@ func (w *c13World) netCase(t *testing.T, out *vh.Out, env *c13NetEnv, n c13Net, 
 	if len(srvs) == 0 {
 		// no server configured: the discovery goroutine dereferences a nil response and dies; the
 		// future is never completed, the wait ends with the delivery's context
-		lvl, err, panicked = c13CheckConnAfter(dd, w.connState(n.hs, ch))
+		lvl, err, panicked = c13CheckConnAfter(dd, c13MX, true, func() bool { return true }, w.connState(n.hs, ch))
 	} else {
 		lvl, err, panicked = c13CallCheckConn(dd, w.connState(n.hs, ch))
 	}
@@ -3233,13 +3507,21 @@ func (s *c13Spy) CheckConn(ctx context.Context, mxLevel module.MXLevel, tlsLevel
 }
 
 // spellings of the MX host name as attemptMX can be handed it (record.Host)
-var c13HostSpellings = []string{"mx.verif.test.", "mx.verif.test", "MX.Verif.Test."}
+//
+//	0  as an MX record gives it (lower case, trailing dot)
+//	1  without the trailing dot: the implicit MX of a recipient domain without MX RRset is the domain as
+//	   the address spells it (RFC 5321 §5.1; lookupMX: `Host: domain`)
+//	2  an MX record target in the zone's own mixed-case spelling (DNS preserves case)
+//	3  an implicit MX typed in capitals
+//	4  mixed case, no dot
+var c13HostSpellings = []string{"mx.verif.test.", "mx.verif.test", "MX.Verif.Test.", "MX.VERIF.TEST", "mX.veRif.Test"}
 
 // c13Att is one `attempt` case.
 //
 //	modes: the server's behaviour on the 1st, 2nd, 3rd connection (c13SMTP)
 //	pool:  p the client trusts no CA (private-CA world: the first handshake fails verification),
 //	       t the client trusts the roots of both hierarchies (an ordinary CA store)
+//	       s the same, through the SYSTEM trust store (no RootCAs in the configuration — as maddy runs)
 //	base:  d rd.rt.tlsConfig as maddy builds it (no ServerName), o it carries ServerName =
 //	       c13OtherName, n there is no TLS configuration (nil)
 //	host:  index into c13HostSpellings
@@ -3252,12 +3534,21 @@ type c13Att struct {
 	pool  byte
 	base  byte
 	host  int
+	// src: where the *net.MX handed to attemptMX comes from — 0 the harness builds it (Host = the
+	// spelling); i / x the REAL remoteDelivery.lookupMX, through the real ExtResolver against the
+	// scripted server: i for a recipient domain WITHOUT MX RRset, spelled as c13HostSpellings[host] (RFC
+	// 5321 §5.1 implicit MX: lookupMX answers `Host: domain`, as typed), x for the domain verif.test with
+	// an MX RRset whose target is the spelling (as it comes off the wire: fully qualified)
+	src   byte
 	hr    bool
 	crash string
 }
 
 func (a c13Att) code() string {
 	s := fmt.Sprintf("%s;%s;%s;%c;%c;%d", a.zone.code(), a.ck, a.modes, a.pool, a.base, a.host)
+	if a.src != 0 {
+		s += string(a.src)
+	}
 	if a.crash != "" {
 		s += ";" + a.crash
 	}
@@ -3277,8 +3568,12 @@ func c13ParseAtt(code string, hr bool) (c13Att, error) {
 	if err != nil {
 		return c13Att{}, err
 	}
+	var src byte
+	if n := len(p[7]); n >= 2 && (p[7][n-1] == 'i' || p[7][n-1] == 'x') {
+		src, p[7] = p[7][n-1], p[7][:n-1]
+	}
 	h, err := strconv.Atoi(p[7])
-	if err != nil || h < 0 || h >= len(c13HostSpellings) || !strings.ContainsRune("pt", rune(p[5][0])) || !strings.ContainsRune("don", rune(p[6][0])) {
+	if err != nil || h < 0 || h >= len(c13HostSpellings) || !strings.ContainsRune("pts", rune(p[5][0])) || !strings.ContainsRune("don", rune(p[6][0])) {
 		return c13Att{}, fmt.Errorf("bad attempt code %q", code)
 	}
 	for _, m := range p[4] {
@@ -3286,7 +3581,7 @@ func c13ParseAtt(code string, hr bool) (c13Att, error) {
 			return c13Att{}, fmt.Errorf("bad attempt code %q", code)
 		}
 	}
-	return c13Att{zone: z, ck: p[3], modes: p[4], pool: p[5][0], base: p[6][0], host: h, hr: hr, crash: crash}, nil
+	return c13Att{zone: z, ck: p[3], modes: p[4], pool: p[5][0], base: p[6][0], host: h, src: src, hr: hr, crash: crash}, nil
 }
 
 var c13QuietLog = log.Logger{Out: log.NopOutput{}, Name: "c13"}
@@ -3311,13 +3606,23 @@ func (w *c13World) tlsCert(ch *c13Chain) tls.Certificate {
 	return tls.Certificate{Certificate: der, PrivateKey: w.pki.keys[ch.certs[0]], Leaf: ch.certs[0]}
 }
 
-func c13CallAttempt(ctx context.Context, rd *remoteDelivery, conn *mxConn, host string) (err error, panicked bool) {
+func c13CallAttempt(ctx context.Context, rd *remoteDelivery, conn *mxConn, record *net.MX) (err error, panicked bool) {
 	defer func() {
 		if r := recover(); r != nil {
 			panicked = true
 		}
 	}()
-	err = rd.attemptMX(ctx, conn, &net.MX{Host: host, Pref: 10})
+	err = rd.attemptMX(ctx, conn, record)
+	return
+}
+
+func c13CallLookupMX(ctx context.Context, rd *remoteDelivery, domain string) (dnssecOk bool, records []*net.MX, err error, panicked bool) {
+	defer func() {
+		if r := recover(); r != nil {
+			panicked = true
+		}
+	}()
+	dnssecOk, records, err = rd.lookupMX(ctx, domain)
 	return
 }
 
@@ -3371,12 +3676,29 @@ func (w *c13World) attemptCase(out c13Sink, env *c13AttEnv, a c13Att) {
 	ch := w.chains[a.ck]
 	host := c13HostSpellings[a.host]
 	srv := env.srv
-	env.dns.set(w.script(a.zone, ch))
+	sc := w.script(a.zone, ch)
+	domain := "verif.test"
+	switch a.src {
+	case 'i':
+		// the recipient domain IS the host: it exists, it has no MX RRset
+		domain = host
+		sc[c13QKey(dns.FQDN(host), miekgdns.TypeMX)] = c13Answer{ad: true}
+	case 'x':
+		sc[c13QKey("verif.test.", miekgdns.TypeMX)] = c13Answer{ad: true, rrs: []miekgdns.RR{&miekgdns.MX{
+			Hdr:        miekgdns.RR_Header{Name: "verif.test.", Rrtype: miekgdns.TypeMX, Class: miekgdns.ClassINET, Ttl: 9999},
+			Preference: 10, Mx: dns.FQDN(host)}}}
+	}
+	env.dns.set(sc)
 	ock, ocn, trTok, tmTok, _ := w.oracleFor(env.dns, ch, dns.FQDN(host))
 
 	pool := x509.NewCertPool()
-	if a.pool == 't' {
+	switch a.pool {
+	case 't':
 		pool = w.pki.publicPool()
+	case 's':
+		// no RootCAs in the configuration — what maddy runs with: crypto/tls and crypto/x509 use the SYSTEM
+		// trust store (here: the two roots of the harness, c13InstallSystemRoots)
+		pool = nil
 	}
 	var base *tls.Config
 	baseTok := "-"
@@ -3416,12 +3738,12 @@ func (w *c13World) attemptCase(out c13Sink, env *c13AttEnv, a c13Att) {
 	if a.hr {
 		pol.extResolver = cr.resolver(env.dns.ext)
 	}
-	dd := &daneDelivery{c: pol}
+	dd := c13Deliv(pol)
 	if a.crash != "" {
-		// the discovery goroutine is gone by the time the policies are asked; when it crashed the
-		// future stays empty and the wait in CheckConn ends with the delivery's context
+		// the discovery goroutine is gone by the time the policies are asked; when it crashed nobody
+		// will deliver a result and a wait for one in CheckConn ends with the delivery's context
 		spy.before = func() {
-			if !c13SettleFuture(dd) {
+			if a.hr && c13SettleLookup() && cr.didFire() {
 				cancel()
 			}
 		}
@@ -3431,13 +3753,24 @@ func (w *c13World) attemptCase(out c13Sink, env *c13AttEnv, a c13Att) {
 		Log:      c13QuietLog,
 		policies: []module.DeliveryMXAuthPolicy{spy, dd},
 	}
-	conn := &mxConn{C: smtpconn.New(), domain: "verif.test", reuseLimit: 1, lastUseAt: time.Now()}
+	record := &net.MX{Host: host, Pref: 10}
+	if a.src != 0 {
+		// the candidate as the remote target itself derives it
+		tgt.extResolver = env.dns.ext
+		_, recs, lerr, lpanic := c13CallLookupMX(ctx, rd, domain)
+		if lerr != nil || lpanic || len(recs) != 1 || !strings.EqualFold(dns.FQDN(recs[0].Host), dns.FQDN(host)) {
+			panic(fmt.Sprintf("c13: lookupMX(%q) through the scripted server: %v records, err=%v panic=%v", domain, recs, lerr, lpanic))
+		}
+		record = recs[0]
+		out.Stat("attempt/mx-source:" + string(a.src) + " record.Host dotted:" + c13b(strings.HasSuffix(record.Host, ".")))
+	}
+	conn := &mxConn{C: smtpconn.New(), domain: domain, reuseLimit: 1, lastUseAt: time.Now()}
 	conn.Dialer = tgt.dialer
 	conn.Log = c13QuietLog
 	conn.Hostname = tgt.hostname
 	conn.AddrInSMTPMsg = true
 
-	err, panicked := c13CallAttempt(ctx, rd, conn, host)
+	err, panicked := c13CallAttempt(ctx, rd, conn, record)
 	lvl := conn.tlsLevel
 	fired := cr.didFire() && a.hr
 	op := fmt.Sprintf("C13 attempt z=%s %s %s %s %s %s %s %s %s", a.code(), baseTok, strings.Join(atts, " "), c13b(a.hr), ock, ocn, trTok, tmTok, chainN)
@@ -3513,7 +3846,7 @@ func (w *c13World) attemptCase(out c13Sink, env *c13AttEnv, a c13Att) {
 	tr := w.truth(recs, ch)
 	// X.509 alone authenticates: the client trusts the root, the chain is complete and valid for
 	// the MX host name, and the one handshake that was made completed
-	pkix := a.base != 'n' && a.pool == 't' && ch.pkix && len(evs) == 1 && hs
+	pkix := a.base != 'n' && (a.pool == 't' || a.pool == 's') && ch.pkix && len(evs) == 1 && hs
 	switch {
 	case !spy.called:
 		// connect() gave the MX up: nothing was decided
@@ -3695,6 +4028,8 @@ func TestVerifC13Attempt(t *testing.T) {
 		{rec(2, 0, 1, 'F')},
 		{malformed},
 		{rec(3, 0, 1, 'N'), rec(2, 1, 1, 'I')},
+		{rec(2, 1, 1, 'L')},                    // 11: a DANE-TA record that matches only the non-CA leaf
+		{rec(2, 0, 1, 'L'), rec(3, 1, 1, 'N')}, // 12: the same next to a non-matching DANE-EE record
 	}
 	run := func(a c13Att) { cases = append(cases, a) }
 
@@ -3744,6 +4079,27 @@ func TestVerifC13Attempt(t *testing.T) {
 	for _, i := range []int{8, 2} {
 		run(c13Att{zone: zoneOf(sets[i]...), ck: "LIR", modes: "TTT", pool: 't', base: 'd', hr: true})
 	}
+	// (2e) the server's chain is valid for the MX name under the SYSTEM trust store (the client has no
+	// RootCAs of its own: first handshake verified by crypto/tls against the system pool), and the RRset
+	// holds usable DANE-TA records none of which matches a CA certificate of the chain: a stale pin (6),
+	// the pin of a CA that is not presented (8; for G/J the foreign root IS presented: the stray-anchor
+	// case again), a pin matching only the leaf (11, 12). No trust anchor is asserted — the MX is
+	// refused, however publicly trusted the chain. Pins of the issuing CA (1) authenticate. Also on the
+	// InsecureSkipVerify retry (first handshake broken) and with an expired / wrong-name leaf.
+	for _, ck := range []string{"LI", "LIR", "G", "J", "M"} {
+		for _, i := range []int{6, 8, 11, 12, 1} {
+			if !vh.Thorough() && i == 12 && ck != "LIR" && ck != "M" {
+				continue
+			}
+			run(c13Att{zone: zoneOf(sets[i]...), ck: ck, modes: "TTT", pool: 's', base: 'd', hr: true})
+		}
+		run(c13Att{zone: zoneOf(sets[11]...), ck: ck, modes: "HTT", pool: 's', base: 'd', host: 1, hr: true})
+	}
+	for _, ck := range []string{"X", "W", "L"} {
+		for _, i := range []int{6, 11} {
+			run(c13Att{zone: zoneOf(sets[i]...), ck: ck, modes: "TTT", pool: 's', base: 'd', hr: true})
+		}
+	}
 	// (2d) the TLSA discovery crashes (resolver without servers; panicking log output where discovery
 	// reports its decision): nothing is known about the RRset — the MX is refused (temporarily),
 	// whether the connection is in plaintext, encrypted, or authenticated by X.509
@@ -3777,6 +4133,26 @@ func TestVerifC13Attempt(t *testing.T) {
 				run(c13Att{zone: zoneOf(sets[i]...), ck: ck, modes: "TTT", pool: []byte{'p', 't'}[h%2], base: 'd', host: h, hr: true})
 			}
 			run(c13Att{zone: zoneOf(sets[i]...), ck: ck, modes: "TTT", pool: 't', base: 'd', hr: false})
+		}
+		// (4b) every spelling of the MX host name (c13HostSpellings: MX record target / implicit MX, with and
+		// without the trailing dot, other case) x a server without STARTTLS / with a handshake, RRset not
+		// matching (5, 6), matching (4, 1): the published RRset is enforced whatever the spelling
+		if ck == "LIR" || ck == "W" {
+			for h := 1; h < len(c13HostSpellings); h++ {
+				for k, i := range []int{5, 4, 6, 1} {
+					if !vh.Thorough() && k >= 2 && (h+k+int(vh.Seed()))%2 == 0 {
+						continue
+					}
+					// the candidate comes from the real lookupMX: implicit MX for the spellings without a dot,
+					// an MX record's target for those with one
+					src := byte('i')
+					if strings.HasSuffix(c13HostSpellings[h], ".") {
+						src = 'x'
+					}
+					run(c13Att{zone: zoneOf(sets[i]...), ck: ck, modes: "NNN", pool: 'p', base: 'd', host: h, src: src, hr: true})
+					run(c13Att{zone: zoneOf(sets[i]...), ck: ck, modes: "TTT", pool: "pt"[(h+k)%2], base: 'd', host: h, src: src, hr: true})
+				}
+			}
 		}
 		for _, z := range []c13Zone{
 			{a: "s", c: "-", q: "-", r: "X", m: "F", f: 2},
@@ -3821,13 +4197,19 @@ func TestVerifC13Attempt(t *testing.T) {
 			a.ck = []string{"W", "C", "LIR", "X"}[rng.Intn(4)]
 		}
 		if rng.Chance(35) {
-			a.pool = 't'
+			a.pool = "ts"[rng.Intn(2)]
 		}
 		if rng.Chance(12) {
 			a.base = "on"[rng.Intn(2)]
 		}
-		if rng.Chance(20) {
+		if rng.Chance(30) {
 			a.host = rng.Intn(len(c13HostSpellings))
+			if rng.Chance(50) {
+				a.src = 'i'
+				if strings.HasSuffix(c13HostSpellings[a.host], ".") {
+					a.src = 'x'
+				}
+			}
 		}
 		run(a)
 	}
